@@ -1,0 +1,24 @@
+/* verifhooks.h
+ *
+ * Observation hooks for the external runtime-verification harness.
+ * Everything in this header is compiled only with -DLIBSCIENTIFIC_VERIF;
+ * without that define the library is unchanged.
+ */
+#ifndef VERIFHOOKS_H
+#define VERIFHOOKS_H
+#ifdef LIBSCIENTIFIC_VERIF
+#include <stddef.h>
+#include <stdint.h>
+
+/* H1: when non-zero, GetNProcessor() reports this processor count */
+extern size_t libsci_verif_nprocs;
+
+/* H2: called on entry of srand_ (fn=0, seed argument), rand_ (fn=1),
+ * randInt (fn=2), randDouble (fn=3) with the generator state about to be consumed */
+extern void (*libsci_verif_rng_hook)(int fn, uint32_t state_or_seed);
+
+/* H3: called once per iteration of the NIPALS loops just before the convergence
+ * test: loop_id 0 = PCA, 1 = PLS LVCalc, 2 = CPCA */
+extern void (*libsci_verif_tick_hook)(int loop_id, size_t component, double conv);
+#endif
+#endif
